@@ -602,50 +602,47 @@ func (n *BlockNode) Release() {
 
 // Render renders the block node
 func (n *BlockNode) Render(w io.Writer, ctx *RenderContext) error {
-	// Determine which content to use - from context blocks or default
-	var content []Node
-
-	// Store the current block content as parent content if needed
-	// This is critical for multi-level inheritance
-	if _, exists := ctx.parentBlocks[n.name]; !exists {
-		// First time we've seen this block - store its original content
-		// This needs to happen for any block, not just in extending templates
-		if blockContent, ok := ctx.blocks[n.name]; ok && len(blockContent) > 0 {
-			// Store the content from blocks
-			ctx.parentBlocks[n.name] = blockContent
-		} else {
-			// Otherwise store the default body
-			ctx.parentBlocks[n.name] = n.body
+	// The definitions of this block along the extends chain, most derived first.
+	// Blocks declared at the top level of a template were registered when that
+	// template's root was rendered; a block nested inside another block, a loop or
+	// a condition registers here, as the least derived definition.
+	defs := ctx.blockDefs[n.name]
+	known := false
+	for _, def := range defs {
+		if def == n {
+			known = true
+			break
 		}
 	}
-
-	// Now get the content to render
-	if blockContent, ok := ctx.blocks[n.name]; ok && len(blockContent) > 0 {
-		content = blockContent
-	} else {
-		// Otherwise, use the default content from this block node
-		content = n.body
+	if !known {
+		defs = append(defs[:len(defs):len(defs)], n)
 	}
 
-	// Save the current block for parent() function support
-	previousBlock := ctx.currentBlock
-	ctx.currentBlock = n
+	// Render the most derived definition, even when its body is empty.
+	// parent() moves one step down the chain from the current level.
+	previousBlock, previousDefs, previousLevel := ctx.currentBlock, ctx.currentDefs, ctx.currentLevel
+	ctx.currentBlock, ctx.currentDefs, ctx.currentLevel = defs[0], defs, 0
+	defer func() {
+		ctx.currentBlock, ctx.currentDefs, ctx.currentLevel = previousBlock, previousDefs, previousLevel
+	}()
 
-	// Create an isolated context for rendering this block
-	// This prevents parent() from accessing the wrong block context
-	blockCtx := ctx
-
-	// Render the appropriate content
-	for _, node := range content {
-		err := node.Render(w, blockCtx)
+	for _, node := range defs[0].body {
+		err := node.Render(w, ctx)
 		if err != nil {
 			return err
 		}
 	}
 
-	// Restore the previous block
-	ctx.currentBlock = previousBlock
 	return nil
+}
+
+// addBlockDef records a block definition as the least derived one seen so far
+func (ctx *RenderContext) addBlockDef(block *BlockNode) {
+	if ctx.blockDefs == nil {
+		ctx.blockDefs = make(map[string][]*BlockNode)
+	}
+	defs := ctx.blockDefs[block.name]
+	ctx.blockDefs[block.name] = append(defs[:len(defs):len(defs)], block)
 }
 
 // ExtendsNode represents an extends directive
@@ -726,31 +723,13 @@ func (n *ExtendsNode) Render(w io.Writer, ctx *RenderContext) error {
 	// Ensure the context is released even if an error occurs
 	defer parentCtx.Release()
 
-	// First, copy any existing parent blocks to maintain the inheritance chain
-	// This allows for multi-level parent() calls to work properly
-	for name, nodes := range ctx.parentBlocks {
-		// Copy to the new context to preserve the inheritance chain
-		parentCtx.parentBlocks[name] = nodes
-	}
-
-	// Extract blocks from the parent template and store them as parent blocks
-	// for any blocks defined in the child but not yet in the parent chain
-	if rootNode, ok := parentTemplate.nodes.(*RootNode); ok {
-		for _, child := range rootNode.Children() {
-			if block, ok := child.(*BlockNode); ok {
-				// If we don't already have a parent for this block,
-				// use the parent template's block definition
-				if _, exists := parentCtx.parentBlocks[block.name]; !exists {
-					parentCtx.parentBlocks[block.name] = block.body
-				}
-			}
+	// Hand the block definitions collected so far (from this template and the
+	// templates extending it) to the parent; it appends its own when its root renders
+	for name, defs := range ctx.blockDefs {
+		if parentCtx.blockDefs == nil {
+			parentCtx.blockDefs = make(map[string][]*BlockNode, len(ctx.blockDefs))
 		}
-	}
-
-	// Finally, copy all block definitions from the child context
-	// These are the blocks that will actually be rendered
-	for name, nodes := range ctx.blocks {
-		parentCtx.blocks[name] = nodes
+		parentCtx.blockDefs[name] = defs
 	}
 
 	// Render the parent template with the updated context
@@ -1478,23 +1457,12 @@ func (n *ApplyNode) Render(w io.Writer, ctx *RenderContext) error {
 func (n *RootNode) Render(w io.Writer, ctx *RenderContext) error {
 	// First pass: collect blocks and check for extends
 	var extendsNode *ExtendsNode
-	var hasChildBlocks bool
 
-	// Check if this is being rendered as a parent template (ctx.extending is true)
-	// In that case, we should NOT override block definitions
-	if ctx.extending {
-		hasChildBlocks = true
-	}
-
-	// First register all blocks in this template before processing extends
-	// Needed to ensure all blocks are available for parent() calls
+	// Register this template's blocks behind the definitions of the templates
+	// extending it (if any), so that the most derived definition comes first
 	for _, child := range n.children {
 		if block, ok := child.(*BlockNode); ok {
-			// Only register blocks that haven't been defined by a child template
-			if !hasChildBlocks || ctx.blocks[block.name] == nil {
-				// Register the block
-				ctx.blocks[block.name] = block.body
-			}
+			ctx.addBlockDef(block)
 		} else if ext, ok := child.(*ExtendsNode); ok {
 			// If this is an extends node, record it for later
 			extendsNode = ext
